@@ -1196,3 +1196,46 @@ def implied_partial_sum(key, audit, unsigned=True):
         if ok and len(theirs) >= len(mine):
             return k
     return None
+
+
+def _balanced(s):
+    d = 0
+    for ch in s:
+        if ch in '([{':
+            d += 1
+        elif ch in ')]}':
+            d -= 1
+            if d < 0:
+                return False
+    return d == 0
+
+
+def orphan_match(key, audit, present_paths):
+    """A known function that was inlined into its caller and deleted leaves its audited entries without an owner, and its
+    arithmetic reappears in the caller under the caller's name and operand names. Returns the orphaned audited key that
+    `key` is an instance of (same obligation kind, operands equal up to a consistent substitution of the parameter /
+    variable names of the removed function by expressions of the caller), else None."""
+    parts = key.split('|')
+    if len(parts) < 3:
+        return None
+    for k in audit:
+        p2 = k.split('|')
+        if len(p2) < 3 or p2[1] != parts[1] or p2[0] in present_paths or p2[0] == parts[0]:
+            continue
+        # the function of the audited entry no longer exists (also not under a new name: renames are applied earlier)
+        toks = re.split(r'(\barg\d+\b|\bx\d+\b)', p2[2])
+        rx = ''
+        groups = {}
+        for t in toks:
+            if re.fullmatch(r'arg\d+|x\d+', t):
+                if t in groups:
+                    rx += '(?P=%s)' % groups[t]
+                else:
+                    groups[t] = 'g%d' % len(groups)
+                    rx += '(?P<%s>.+?)' % groups[t]
+            else:
+                rx += re.escape(t)
+        m = re.fullmatch(rx, parts[2])
+        if m and all(_balanced(v) for v in m.groupdict().values()):
+            return k
+    return None
